@@ -176,73 +176,64 @@ func ruleProvIssuer(c *Ctx, r *Rep) {
 			if !r.Check(issuerBase != "", "issuer-artifact-lookup|"+fk, c.FnPos(fn), "GetBuildArtifact(<own config>.Issuer)", issuerBase) {
 				continue
 			}
-			want := map[string]string{
-				"IssuerDn":     issuerBase + ".Certificate.TBSCertificate.Subject",
-				"PublicKeyRaw": issuerBase + ".Certificate.TBSCertificate.PublicKey.PublicKey.Bytes",
-				"PrivateKey":   issuerBase + ".PrivateKey",
-			}
-			got := map[string]bool{}
-			var ctxAlloc ssa.Value
-			for _, fs := range byFn[fn] {
-				if fs.field == "" {
-					// whole-struct store: the self-signed branch
-					o := pv.Origins(fs.st.Val)
-					call, isCall := fs.st.Val.(*ssa.Call)
-					okSelf := false
-					if isCall && call.Call.StaticCallee() != nil {
-						// its argument is the context that is signed
-						a := pv.Origins(call.Call.Args[0])
-						s := pv.Origins(signCall.Call.Args[0])
-						okSelf = strings.Join(a, ",") == strings.Join(s, ",") && instrDominates(bodyCall, fs.st)
-						// and the callee copies name, key bits and key of that context
-						if len(o) == 1 {
-							okSelf = okSelf && strings.Contains(o[0], "IssuerDn=") && strings.Contains(o[0], ".TbsCertificate.Subject") &&
-								strings.Contains(o[0], "PublicKeyRaw=") && strings.Contains(o[0], ".TbsCertificate.PublicKey.PublicKey.Bytes") &&
-								strings.Contains(o[0], "PrivateKey=") && !strings.Contains(o[0], ".TbsCertificate.Issuer")
-						}
-					}
-					// guarded by "no issuer configured"
-					r.Check(okSelf, "self-signed|"+fk, c.Pos(fs.st.Pos()), "self-signed: issuer context = the entity's own context (subject, key bits, key), taken after the body and key exist", strings.Join(o, " , "))
-					ctxAlloc = fs.root
-					continue
-				}
-				w, known := want[fs.field]
-				if !known {
-					r.Bad("field|"+fk+"|"+fs.field, c.Pos(fs.st.Pos()), "a known issuer context field", fs.field)
-					continue
-				}
-				got[fs.field] = true
-				ctxAlloc = fs.root
-				expectSet(r, "configured-issuer|"+fk+"|"+fs.field, c.Pos(fs.st.Pos()), pv.Origins(fs.st.Val), "from the issuer's stored artifact", w)
-			}
-			for f := range want {
-				if !got[f] {
-					r.Bad("configured-issuer|"+fk+"|"+f, c.FnPos(fn), "field "+f+" is set for a configured issuer", "never stored")
-				}
-			}
-			// the context handed to signing carries this issuer context
+			// the issuer context handed to signing: the value whose address is stored into <ctx>.Issuer before the signing call
+			var ctxAlloc *ssa.Alloc
 			attached := false
 			for _, b := range fn.Blocks {
 				for _, ins := range b.Instrs {
 					if st, ok := ins.(*ssa.Store); ok {
-						if fa, ok := st.Addr.(*ssa.FieldAddr); ok && fieldOfAddr(fa).Name() == "Issuer" && st.Val == ctxAlloc && instrDominates(st, signCall) {
-							attached = true
+						if fa, ok := st.Addr.(*ssa.FieldAddr); ok && fieldOfAddr(fa).Name() == "Issuer" && strings.HasSuffix(ownerName(c, fa.X.Type()), "cert.CertificateContext") {
+							if al, ok := st.Val.(*ssa.Alloc); ok {
+								ctxAlloc = al
+								attached = instrDominates(st, signCall)
+								// attached to the context that is signed
+								ao, so := pv.Origins(fa.X), pv.Origins(signCall.Call.Args[0])
+								r.Check(strings.Join(ao, ",") == strings.Join(so, ","), "issuer-attached-to-signed-context|"+fk, c.Pos(st.Pos()), "the issuer context is attached to the context that is signed", strings.Join(ao, ","))
+							}
 						}
 					}
 				}
 			}
-			r.Check(attached, "issuer-attached-before-signing|"+fk, c.Pos(signCall.Pos()), "ctx.Issuer = &issuerCtx dominates the signing call", sprintf("%v", attached))
-		case fn.Signature.Results().Len() == 1 && strings.HasSuffix(typeShort(c, fn.Signature.Results().At(0).Type()), "cert.IssuerContext") && len(fn.Params) == 1:
-			// AsIssuer-like converter
-			prm := "P(" + fk + "." + fn.Params[0].Name() + ")"
-			want := map[string]string{
-				"IssuerDn":     prm + ".TbsCertificate.Subject",
-				"PublicKeyRaw": prm + ".TbsCertificate.PublicKey.PublicKey.Bytes",
-				"PrivateKey":   prm + ".PrivateKey",
+			r.Check(ctxAlloc != nil && attached, "issuer-attached-before-signing|"+fk, c.Pos(signCall.Pos()), "ctx.Issuer = &issuerCtx dominates the signing call", sprintf("%v", attached))
+			if ctxAlloc == nil {
+				continue
 			}
+			// its three fields, over both branches (configured issuer / self-signed), flow-insensitively
+			self := ""
+			if bo := pv.Origins(bodyCall); len(bo) == 1 {
+				self = bo[0] + "#0"
+			}
+			want := map[string][2]string{
+				"IssuerDn":     {issuerBase + ".Certificate.TBSCertificate.Subject", self + ".TbsCertificate.Subject"},
+				"PublicKeyRaw": {issuerBase + ".Certificate.TBSCertificate.PublicKey.PublicKey.Bytes", self + ".TbsCertificate.PublicKey.PublicKey.Bytes"},
+				"PrivateKey":   {issuerBase + ".PrivateKey", self + ".PrivateKey"},
+			}
+			ist := ctxAlloc.Type().Underlying().(*types.Pointer).Elem().Underlying().(*types.Struct)
+			for i := 0; i < ist.NumFields(); i++ {
+				f := ist.Field(i)
+				w, known := want[f.Name()]
+				if !known {
+					r.Infof("issuer context field %s is not covered by the rule", f.Name())
+					continue
+				}
+				o := pv.loadFrom(ctxAlloc, []*types.Var{f}, 0)
+				expectSet(r, "issuer-context|"+fk+"|"+f.Name(), c.Pos(ctxAlloc.Pos()), o, "configured issuer: from the issuer's stored artifact (its Subject, not its Issuer); self-signed: from the entity's own context built just before", w[0], w[1])
+			}
+		case fn.Signature.Results().Len() == 1 && strings.HasSuffix(typeShort(c, fn.Signature.Results().At(0).Type()), "cert.IssuerContext") && len(fn.Params) == 1:
+			// converters (AsIssuer and helpers): every field derives from the single parameter; what they are applied to is
+			// checked at the driver through inlining. The own-context converter additionally must read Subject, not Issuer.
+			prm := "P(" + fk + "." + fn.Params[0].Name() + ")"
 			for _, fs := range byFn[fn] {
-				if w, ok := want[fs.field]; ok {
-					expectSet(r, "own-context|"+fk+"|"+fs.field, c.Pos(fs.st.Pos()), pv.Origins(fs.st.Val), "from the context's own certificate body", w)
+				o := pv.Origins(fs.st.Val)
+				ok := len(o) >= 1
+				for _, x := range o {
+					if !strings.HasPrefix(x, prm) {
+						ok = false
+					}
+				}
+				r.Check(ok, "converter|"+fk+"|"+fs.field, c.Pos(fs.st.Pos()), "derived from the converter's argument only", strings.Join(o, " , "))
+				if strings.HasSuffix(typeShort(c, fn.Params[0].Type()), "cert.CertificateContext") && fs.field == "IssuerDn" {
+					expectSet(r, "own-context|"+fk+"|IssuerDn", c.Pos(fs.st.Pos()), o, "a context acting as its own issuer is named by its subject", prm+".TbsCertificate.Subject")
 				}
 			}
 		default:
@@ -1456,7 +1447,23 @@ func ruleMergeCopy(c *Ctx, r *Rep) {
 		case "Validity":
 			expectSet(r, key, c.FnPos(merge), o, "the certificate's validity, or the profile's", content+".Validity", profile+".Validity")
 		default:
-			expectSet(r, key, c.FnPos(merge), o, "copied from the certificate's configuration", content+"."+f.Name())
+			src := content + "." + f.Name()
+			if _, isSlice := f.Type().Underlying().(*types.Slice); isSlice {
+				// the same slice, or a copy of its elements
+				ok, has := true, false
+				for _, x := range o {
+					switch {
+					case x == src || x == "elem:"+src:
+						has = true
+					case x == "K(nil)" || strings.HasPrefix(x, "make("):
+					default:
+						ok = false
+					}
+				}
+				r.Check(ok && has, key, c.FnPos(merge), "the certificate's "+f.Name()+" (or a copy of its elements)", strings.Join(o, " , "))
+				break
+			}
+			expectSet(r, key, c.FnPos(merge), o, "copied from the certificate's configuration", src)
 		}
 	}
 	// guard of the validity inheritance
